@@ -260,6 +260,10 @@ def exploit_case(chk, g, r):
         tstr = None
     bk = r.choice([0, 0, 1, -1]) if sep else 0
     anti = r.random() < 0.7
+    exploit_call(chk, total, tnames, tstr, bk, anti)
+
+
+def exploit_call(chk, total, tnames, tstr, bk, anti):
     tsyms = get_symbols(tnames)
     expr = Expr(total, real=True, target_idx=tsyms)
     pre_copy = Expr(expr.sympy, **expr.assumptions)
@@ -279,6 +283,41 @@ def exploit_case(chk, g, r):
     if chk.counters["exploit_perm_sym_calls"] % 25 == 1:
         chk.add_sample({"call": what[:300],
                         "keys": [str(k) for k in res][:5]})
+
+
+def exploit_orbits(chk, r, quick):
+    """Orbits of length three (three target indices of one space, terms that
+    are (anti)symmetric in two of them) and incomplete orbits (three of the
+    four members of a P_ij / P_ab orbit): a member must not be counted twice."""
+    from adcgen.sympy_objects import NonSymmetricTensor, AntiSymmetricTensor
+    i, j, k, a, b, c = get_symbols("ijkabc")
+    n1 = lambda *x: NonSymmetricTensor("n1", x)     # noqa
+    n2 = lambda *x: NonSymmetricTensor("n2", x)     # noqa
+    G = lambda p, q: AntiSymmetricTensor("Gq", (p, q), ())   # noqa
+    cases = [
+        (n1(i) * n1(j) * n2(k) + n1(i) * n1(k) * n2(j) + n1(j) * n1(k) * n2(i),
+         "ijk", False),
+        (n1(a) * n1(b) * n2(c) + n1(a) * n1(c) * n2(b) + n1(b) * n1(c) * n2(a),
+         "abc", False),
+        (G(i, j) * n2(k) - G(i, k) * n2(j) + G(j, k) * n2(i), "ijk", True),
+        (n1(i) * n1(j) * n2(k) + n1(i) * n1(k) * n2(j), "ijk", False),
+        (G(a, b) * n2(c) - G(a, c) * n2(b), "abc", True),
+        # three of the four members of the P_ij / P_ab orbit of n1_ia n2_jb
+        (n1(i, a) * n2(j, b) - n1(j, a) * n2(i, b) - n1(i, b) * n2(j, a),
+         "ijab", True),
+        (n1(i, a) * n2(j, b) - n1(j, a) * n2(i, b) + n1(j, b) * n2(i, a),
+         "ijab", True),
+        (n1(i, a) * n2(j, b) + n1(j, a) * n2(i, b) + n1(i, b) * n2(j, a),
+         "ijab", False),
+        (n1(i, a) * n2(j, b) - n1(j, a) * n2(i, b) - n1(i, b) * n2(j, a)
+         + n1(j, b) * n2(i, a), "ijab", True),
+    ]
+    for total, tn_, anti in cases:
+        orders = [tn_] if quick else \
+            [tn_, "".join(r.sample(list(tn_), len(tn_)))]
+        for tstr in orders:
+            exploit_call(chk, total, list(tn_), tstr, 0, anti)
+            chk.count("orbit_cases")
 
 
 def sort_case(chk, g, r):
@@ -368,6 +407,7 @@ def run(chk):
     denom_symmetry_cases(chk, g, r, quick)
     for _ in range(80 if quick else 800):
         exploit_case(chk, g, r)
+    exploit_orbits(chk, r, quick)
     for _ in range(80 if quick else 800):
         sort_case(chk, g, r)
     chk.judge(chunk=400)
